@@ -23,6 +23,8 @@ def run(ctx) -> None:
     jsonrules.rule_K1(ctx)
     jsonrules.rule_K2(ctx)
     jsonrules.rule_K3(ctx)
+    ctx.rules_run.append("K3b")
+    jsonrules.rule_K3b(ctx)     # the Timestamp text at distinguished microsecond values: 0 / 3 / 6 zero-padded digits
     jsonrules.rule_J1(ctx)
     jsonrules.rule_J6(ctx)
     ctx.rules_run += ["J8"]
